@@ -98,7 +98,7 @@ func main() {
 		"because of that, a recovery failure under M1 and a hang are reported only if they reproduce on 3 of 3 re-runs in which the fault fired; success with wrong rows is reported on first sight (re-run count in the detail)",
 		"machine-combiner sessions are excluded (the property excludes them)")
 	setup()
-	budget := 100 * time.Second
+	budget := 150 * time.Second
 	if r.Thorough() {
 		budget = 9 * time.Minute
 	}
